@@ -31,6 +31,7 @@ type World struct {
 	maxCands int
 	mirrorUsed []string
 	untagged   []string // non-assumed contracts without a props tag (never verified)
+	duplicates []string // functions with more than one contract of the same view
 	overlay  map[string][]byte
 	loadSecs float64
 	constGlobals map[*ssa.Global]*constGlobal
@@ -255,6 +256,10 @@ func (w *World) addFile(cf *ContractFile) {
 				// property would be relied on by callers and never checked
 				w.untagged = append(w.untagged, key)
 			}
+		}
+		if prev, dup := w.contracts[key]; dup && prev != c {
+			// two contracts for one function: the later one would silently replace the earlier
+			w.duplicates = append(w.duplicates, key)
 		}
 		w.contracts[key] = c
 	}
